@@ -8,6 +8,7 @@ and 31 (price: num atoms 30 / 31, volume: int atoms 300 / 310); who buys, who se
 is the *shape* (ids are dictionary keys), everything else is quantified.  A self-trade (buyer = seller)
 is one of the shapes: the four updates go through one object.
 -/
+import PamsLemmas.EvalNf
 import PamsGen.Code
 import PamsModel.Ledger
 import PamsLemmas.SrcOrder
@@ -78,16 +79,16 @@ def mkFillL (b s m : Nat) (p : K) (v : Nat) : Ledger.LFill K :=
   { buyer := b, seller := s, market := m, amount := amountSrc p v, vol := v }
 
 set_option maxRecDepth 100000
-theorem ledgerP_110 : ledgerPaths [.ref 30] 1 1 0 1 2 0 = nf% (ledgerPaths [.ref 30] 1 1 0 1 2 0) := by rfl
-theorem ledgerP_111 : ledgerPaths [.ref 30] 1 1 1 1 2 0 = nf% (ledgerPaths [.ref 30] 1 1 1 1 2 0) := by rfl
-theorem ledgerP_120 : ledgerPaths [.ref 30] 1 2 0 1 2 0 = nf% (ledgerPaths [.ref 30] 1 2 0 1 2 0) := by rfl
-theorem ledgerP_121 : ledgerPaths [.ref 30] 1 2 1 1 2 0 = nf% (ledgerPaths [.ref 30] 1 2 1 1 2 0) := by rfl
-theorem ledgerP_210 : ledgerPaths [.ref 30] 2 1 0 1 2 0 = nf% (ledgerPaths [.ref 30] 2 1 0 1 2 0) := by rfl
-theorem ledgerP_211 : ledgerPaths [.ref 30] 2 1 1 1 2 0 = nf% (ledgerPaths [.ref 30] 2 1 1 1 2 0) := by rfl
-theorem ledgerP_220 : ledgerPaths [.ref 30] 2 2 0 1 2 0 = nf% (ledgerPaths [.ref 30] 2 2 0 1 2 0) := by rfl
-theorem ledgerP_221 : ledgerPaths [.ref 30] 2 2 1 1 2 0 = nf% (ledgerPaths [.ref 30] 2 2 1 1 2 0) := by rfl
-theorem ledgerP_two : ledgerPaths [.ref 30, .ref 31] 1 2 0 2 1 0 = nf% (ledgerPaths [.ref 30, .ref 31] 1 2 0 2 1 0) := by rfl
-theorem ledgerP_two_self : ledgerPaths [.ref 30, .ref 31] 1 2 1 1 1 1 = nf% (ledgerPaths [.ref 30, .ref 31] 1 2 1 1 1 1) := by rfl
+theorem ledgerP_110 : ledgerPaths [.ref 30] 1 1 0 1 2 0 = evalnf% (ledgerPaths [.ref 30] 1 1 0 1 2 0) := by kernel_rfl
+theorem ledgerP_111 : ledgerPaths [.ref 30] 1 1 1 1 2 0 = evalnf% (ledgerPaths [.ref 30] 1 1 1 1 2 0) := by kernel_rfl
+theorem ledgerP_120 : ledgerPaths [.ref 30] 1 2 0 1 2 0 = evalnf% (ledgerPaths [.ref 30] 1 2 0 1 2 0) := by kernel_rfl
+theorem ledgerP_121 : ledgerPaths [.ref 30] 1 2 1 1 2 0 = evalnf% (ledgerPaths [.ref 30] 1 2 1 1 2 0) := by kernel_rfl
+theorem ledgerP_210 : ledgerPaths [.ref 30] 2 1 0 1 2 0 = evalnf% (ledgerPaths [.ref 30] 2 1 0 1 2 0) := by kernel_rfl
+theorem ledgerP_211 : ledgerPaths [.ref 30] 2 1 1 1 2 0 = evalnf% (ledgerPaths [.ref 30] 2 1 1 1 2 0) := by kernel_rfl
+theorem ledgerP_220 : ledgerPaths [.ref 30] 2 2 0 1 2 0 = evalnf% (ledgerPaths [.ref 30] 2 2 0 1 2 0) := by kernel_rfl
+theorem ledgerP_221 : ledgerPaths [.ref 30] 2 2 1 1 2 0 = evalnf% (ledgerPaths [.ref 30] 2 2 1 1 2 0) := by kernel_rfl
+theorem ledgerP_two : ledgerPaths [.ref 30, .ref 31] 1 2 0 2 1 0 = evalnf% (ledgerPaths [.ref 30, .ref 31] 1 2 0 2 1 0) := by kernel_rfl
+theorem ledgerP_two_self : ledgerPaths [.ref 30, .ref 31] 1 2 1 1 1 1 = evalnf% (ledgerPaths [.ref 30, .ref 31] 1 2 1 1 1 1) := by kernel_rfl
 
 /-- closes the per-path goals of a ledger source theorem -/
 macro "ledger_paths_finish" : tactic =>
